@@ -44,6 +44,8 @@ def main():
             print("PATCH FAILED", meta["patch_error"])
         env = dict(os.environ, PYTHONPATH=d, PYTHONDONTWRITEBYTECODE="1")
         t = sh([PY, "-m", "pytest", "-q", "-p", "no:cacheprovider", "--timeout=120", "tests"], cwd=d, env=env)
+        if t.returncode != 0 and "test_rt" in t.stdout:        # the repository's wall-clock test flakes when the machine is loaded
+            t = sh([PY, "-m", "pytest", "-q", "-p", "no:cacheprovider", "--timeout=120", "tests"], cwd=d, env=env)
         meta["tests"] = t.stdout.strip().splitlines()[-1] if t.stdout.strip() else t.stderr[-200:]
         meta["tests_pass"] = t.returncode == 0
         demo = os.path.join(dst, "demo.py")
